@@ -467,4 +467,54 @@ theorem updateM_of_pre (st : St) (s : Sel) (id : Id) (p : Payload) (chk : Option
           rw [hid] at hf
           simp [h1, h2, hf, updateChildM, hid]
         · simp [h1, h2, hid]
+/-! ## every lookup API of a store (store_crud.go: the methods taking an id)
+
+  `FindById`, `LoadById` and `LoadEntity` each resolve the bucket with `getEntityBucketForLoad`
+  (the child's data bucket; an extended store falls back to the parent's entity bucket) and fill
+  an entity from it; `IsEntityPresent` and `GetEntityBucket != nil` look at the store's own data
+  bucket only. -/
+
+abbrev Found := Val × List Val × Option Val
+
+/-- `LoadById`: not-found error instead of `found = false` -/
+def loadById (st : St) (s : Sel) (id : Id) : Except Err Found :=
+  match bucketForLoad st s id with
+  | none => .error .notfound
+  | some e => .ok (e.name, e.roles, e.childField s)
+
+/-- `LoadEntity`: fills the caller's entity, reports whether it was found -/
+def loadEntity (st : St) (s : Sel) (id : Id) : Option Found :=
+  match bucketForLoad st s id with
+  | none => none
+  | some e => some (e.name, e.roles, e.childField s)
+
+/-- `GetEntityBucket(tx, id) != nil` -/
+def entityBucketNonNil (st : St) (s : Sel) (id : Id) : Bool :=
+  match mget st.ents id with
+  | none => false
+  | some e => e.hasChild s
+
+/-- the specification: the one predicate "store `s` owns the entity" decides every lookup —
+    what a lookup through `s` returns for `id` -/
+def ownedLookup (ents : Ents) (s : Sel) (id : Id) : Option Found :=
+  match mget ents id with
+  | some e => if ownsEnt s false e then some (e.name, e.roles, e.childField s) else none
+  | none => none
+
+/-- … and whether `s` has data of its own for `id` -/
+def ownsData (ents : Ents) (s : Sel) (id : Id) : Bool :=
+  match mget ents id with
+  | some e => ownsEnt s true e
+  | none => false
+
+theorem findById_eq_owned (st : St) (s : Sel) (id : Id) : findById st s id = ownedLookup st.ents s id := by
+  unfold findById bucketForLoad ownedLookup ownsEnt
+  cases mget st.ents id with
+  | none => rfl
+  | some e =>
+    cases s
+    · rfl
+    · by_cases h : e.c1.isSome = true <;> simp [Sel.isExtended, Ent.hasChild, h]
+    · by_cases h : e.c2.isSome = true <;> simp [Sel.isExtended, Ent.hasChild, h]
+
 end StorageModel.C15
